@@ -381,4 +381,17 @@ theorem writeOmit_aux_path (pats : List (List Pat)) (nodes : List (List Char)) :
           · subst e; exact absurd h.1 hq
           · exact Or.inr ⟨r, e, h⟩
 
+/-! ### time-series steps -/
+
+theorem diffs_grid (d : Int) : ∀ (n : Nat) (t0 : Int), diffs (grid t0 d (n + 1)) = List.replicate n d := by
+  intro n
+  induction n with
+  | zero => intro t0; rfl
+  | succ k ih =>
+    intro t0
+    have := ih (t0 + d)
+    simp only [grid] at this ⊢
+    simp only [diffs, this, List.replicate_succ]
+    congr 1; omega
+
 end Verif.C05
